@@ -214,6 +214,7 @@ func labelGroup(label string) string {
 
 // Session verifies one function.
 type Session struct {
+	reslice map[*ssa.CallCommon]bool // appends whose operand may be a reslice (see resliceAppends)
 	P      *Prog
 	fn     *ssa.Function
 	name   string
